@@ -29,9 +29,11 @@ func checkC16(p *Prog, c *Check) {
 			c15Order(p, c, sp)
 			c15Rollback(p, c, sp)
 			c15Hash(p, c, sp)
+			c15ReorgParams(p, c, sp)
 		}
 	}
 	c15Ranges(p, c)
+	c16RangeIndependent(p, c)
 }
 
 var reTable = regexp.MustCompile(`(?i)\b(from|join|into|update)\s+([a-z_][a-z0-9_]*)`)
